@@ -24,7 +24,7 @@ Proof. exact handler_runs_only_if_active. Qed.
 Print Assumptions C09_handler_runs_only_if_active.
 
 (* ... so that in a record without a callback panic every such call carries is_active = true *)
-Theorem C09_calls_carry_active : forall l, (forall m, ~ In (IPanic m 0) l) -> act_st false l <> None ->
+Theorem C09_calls_carry_active : forall l, (forall m c, ~ In (IPanic m 0 c) l) -> act_st false l <> None ->
   forall m c t a, In (ICall m c t a) l -> a = true.
 Proof. exact act_st_no_panic. Qed.
 Print Assumptions C09_calls_carry_active.
@@ -65,7 +65,7 @@ Theorem C09_restart_stages_once_at_time :
      (exists n, (stage_list (c_stages (cfg sc m)) <> [] -> (0 < n)%nat) /\
         map call_key (start_calls (e_items e)) =
         map (fun st => (m, st, e_time e)) (firstn n (stage_list (c_stages (cfg sc m))))) /\
-     (~ In (IPanic m 0) (e_items e) ->
+     ((forall c, ~ In (IPanic m 0 c) (e_items e)) ->
         map call_key (start_calls (e_items e)) =
         map (fun st => (m, st, e_time e)) (stage_list (c_stages (cfg sc m))))).
 Proof.
